@@ -7,6 +7,7 @@ import (
 	"encoding/json"
 	"fmt"
 	"math/rand"
+	"os"
 	"strings"
 
 	ledger "github.com/formancehq/ledger/internal"
@@ -21,9 +22,9 @@ import (
 func init() {
 	core.Register(&core.Check{
 		ID: "C12", Level: "exploration",
-		Rule: "an export of 2-4 logs (half of them from a source whose first 1-3 ids were burnt by dry runs, so that the stream starts at id 2-4; HASH_LOGS disabled on two thirds of the target ledgers, since hash verification refuses any stream appended after foreign logs) is imported into an initializing ledger concurrently with one or two other clients (a create through the controller, an atomic bulk, a non-atomic bulk, a continue-on-failure bulk whose first element fails, a metadata write, or a second import); the import client resolves its controller, yields, then calls Import. Every interleaving at store calls / the ledger advisory lock / COMMITs within 2 (thorough 3) preemptions is enumerated once up to a cap, plus the directed family {client i runs k steps, client j runs to completion, i resumes} for every k, plus random walks, plus free-running under the race detector. Oracles: (serial) the reduced final state (logs, transactions, volumes, ledger state) must equal the result of one of the serial orders of the same operations (a non-atomic bulk counting as one operation per element) executed by the real code; (direct) the ledger never holds native logs below or among imported ones, an accepted import stored all its logs, a refused import stored none, and with HASH_LOGS=SYNC the final log stream re-imports into a fresh ledger (chain intact). Sequential parts: imports after prior histories produced through every write path must be rejected with no effect; imports through a controller resolved BEFORE another request's first write / import (stale controller) must be rejected with no effect, and a stale writer after a complete import must continue its ids. Distinct = (scenario, interleaving hash, outcome vector); non-trivial = at least one client switch while another client was enabled",
+		Rule:        "an export of 2-4 logs (half of them from a source whose first 1-3 ids were burnt by dry runs, so that the stream starts at id 2-4; HASH_LOGS disabled on two thirds of the target ledgers, since hash verification refuses any stream appended after foreign logs) is imported into an initializing ledger concurrently with one or two other clients (a create through the controller, an atomic bulk, a non-atomic bulk, a continue-on-failure bulk whose first element fails, a metadata write, or a second import); the import client resolves its controller, yields, then calls Import. Every interleaving at store calls / the ledger advisory lock / COMMITs within 2 (thorough 3) preemptions is enumerated once up to a cap, plus the directed family {client i runs k steps, client j runs to completion, i resumes} for every k, plus random walks, plus free-running under the race detector. Oracles: (serial) the reduced final state (logs, transactions, volumes, ledger state) must equal the result of one of the serial orders of the same operations (a non-atomic bulk counting as one operation per element) executed by the real code; (direct) the ledger never holds native logs below or among imported ones, an accepted import stored all its logs, a refused import stored none, and with HASH_LOGS=SYNC the final log stream re-imports into a fresh ledger (chain intact). Sequential parts: imports after prior histories produced through every write path must be rejected with no effect; imports through a controller resolved BEFORE another request's first write / import (stale controller) must be rejected with no effect, and a stale writer after a complete import must continue its ids. Distinct = (scenario, interleaving hash, outcome vector); non-trivial = at least one client switch while another client was enabled",
 		Assumptions: []string{seqAssume, "pg_advisory_lock / pg_advisory_xact_lock on the ledger key exclude each other as modelled"},
-		Run:  runC12,
+		Run:         runC12,
 	})
 }
 
@@ -317,7 +318,11 @@ var c12WritePaths = []string{"create", "meta", "bulk", "bulk-atomic", "bulk-cof"
 
 func runC12(r *core.Run) {
 	// --- sequential part: import after a prior history through each write path is rejected, no effect
-	r.ForEach("seq", r.N(100, 2000), 0, func(c *core.Case) {
+	nSeq, nStale := r.N(100, 2000), r.N(120, 2400)
+	if r.RaceMode { // the sequential parts are not what the race detector is for
+		nSeq, nStale = r.N(30, 300), r.N(36, 360)
+	}
+	r.ForEach("seq", nSeq, 0, func(c *core.Case) {
 		fs := c12Features(c.Rng)
 		burn := c12Burn(c.Rng)
 		raw, logs := c12Export(c.Rng, fs, burn)
@@ -336,17 +341,16 @@ func runC12(r *core.Run) {
 			r.Count("imports_after_prior_write_with_stream_starting_above_id_1", 1)
 		}
 		detail := map[string]any{"export": raw, "first": first, "import": res, "features": fs.String(), "burnt_ids_on_source": burn}
-		if res == "import:ok" {
+		switch cls, info := c12Mix(snap, logs, []string{res}); {
+		case res == "import:ok":
+			detail["classification"] = info
 			c.Violation("C12/import-accepted-after-a-write-via-"+path, detail)
-		}
-		if before != after {
+		case before != after:
 			c.Violation("C12/rejected-import-changed-the-ledger:after-write-via-"+path, detail)
-		}
-		if st := e.C.LedgerState("dst"); st != "in-use" && c12Wrote(first) {
-			detail["state"] = st
+		case e.C.LedgerState("dst") != "in-use" && c12Wrote(first):
+			detail["state"] = e.C.LedgerState("dst")
 			c.Violation("C12/ledger-not-in-use-after-accepted-write-via-"+path, detail)
-		}
-		if cls, info := c12Mix(snap, logs, []string{res}); cls != "" {
+		case cls != "":
 			detail["classification"] = info
 			c.Violation("C12/"+cls+":sequential:after-write-via-"+path, detail)
 		}
@@ -367,7 +371,7 @@ func runC12(r *core.Run) {
 
 	// --- stale controllers: the importing request was resolved (controller built, ledger row loaded:
 	// initializing) BEFORE another request's first write / import committed, and calls Import AFTER it.
-	r.ForEach("stale", r.N(120, 2400), 0, func(c *core.Case) {
+	r.ForEach("stale", nStale, 0, func(c *core.Case) {
 		fs := c12Features(c.Rng)
 		burn := c12Burn(c.Rng)
 		if c.Index%2 == 0 && burn == 0 {
@@ -393,21 +397,22 @@ func runC12(r *core.Run) {
 		r.Eval("stale|"+between+"|"+mid+"|"+res+fmt.Sprintf("|burn=%v|%s", burn > 0, fs[features.FeatureHashLogs]), true)
 		r.Count("imports_through_stale_controllers", 1)
 		r.Seen("stale_controller_scenarios", fmt.Sprintf("%s burn=%v hash=%s => %s", between, burn > 0, fs[features.FeatureHashLogs], res))
-		if res == "import:ok" {
-			c.Violation("C12/import-through-a-controller-resolved-before-another-request-accepted:after-"+between, detail)
-		}
-		if snap.Digest() != before {
-			c.Violation("C12/refused-import-through-a-stale-controller-changed-the-ledger:after-"+between, detail)
-		}
 		outs := []string{res}
 		if between == "import" {
 			outs = append(outs, mid)
 		}
-		if cls, info := c12Mix(snap, logs, outs); cls != "" {
+		cls, info := c12Mix(snap, logs, outs)
+		chainOK, why := c12Chain(e, fs)
+		switch {
+		case res == "import:ok":
+			detail["classification"] = info
+			c.Violation("C12/import-through-a-controller-resolved-before-another-request-accepted:after-"+between, detail)
+		case snap.Digest() != before:
+			c.Violation("C12/refused-import-through-a-stale-controller-changed-the-ledger:after-"+between, detail)
+		case cls != "":
 			detail["classification"] = info
 			c.Violation("C12/"+cls+":stale-controller:after-"+between, detail)
-		}
-		if ok, why := c12Chain(e, fs); !ok {
+		case !chainOK:
 			detail["reimport"] = why
 			c.Violation("C12/final-log-stream-does-not-reimport:stale-controller:after-"+between, detail)
 		}
@@ -489,6 +494,12 @@ func runC12(r *core.Run) {
 		return
 	}
 	// --- controlled interleavings
+	if r.NViolations() > 0 && os.Getenv("VERIF_C12_FORCE_CONC") == "" {
+		// already refuted sequentially (known findings do not count): exploring interleavings of a stack
+		// whose sequential behaviour is wrong only adds noise (the code under test panics on colliding ids)
+		r.Count("concurrent_part_skipped_after_sequential_refutation", 1)
+		return
+	}
 	nsc := r.N(36, 300)
 	per := r.N(250, 1200)
 	r.Floor("interleavings", int64(nsc*per/4))
@@ -515,7 +526,11 @@ func runC12(r *core.Run) {
 			r.Count("scenarios_without_log_hashing", 1)
 		}
 		scen := strings.Join(kinds, "+")
+		refuted := false // the scenario is abandoned after its first refuting schedule
 		exec := func(ch sched.Chooser) *sched.Sched {
+			if r.NViolations() >= 6 {
+				refuted = true // enough distinct refutations reported by other scenarios: wind down
+			}
 			e := sim.NewEnv(sim.Options{})
 			defer e.Close()
 			_ = e.CreateLedger("dst", "_default", fs)
@@ -526,6 +541,10 @@ func runC12(r *core.Run) {
 				bodies[i] = func(ctx context.Context) { outs[i] = c12Client(ctx, e, kinds[i], logs) }
 			}
 			s := sched.New(len(kinds), ch)
+			if refuted {
+				s.Diverged = true // not run
+				return s
+			}
 			e.C.Sched = s
 			s.Run(e.Ctx, bodies)
 			e.C.Sched = nil
@@ -549,65 +568,120 @@ func runC12(r *core.Run) {
 			detail := map[string]any{"clients": kinds, "outcomes": outs, "export": raw, "interleaving": s.String(), "schedule": s.Choices(), "features": fs.String(), "burnt_ids_on_source": burn}
 			if s.Stuck {
 				detail["locks"] = e.C.DebugLocks()
+				refuted = true
 				c.Violation("C12/all-clients-blocked-forever:"+scen, detail)
 				return s
 			}
 			if pend, locks := e.C.PendingLeftovers(); pend != 0 || locks != 0 {
+				refuted = true
 				c.Violation("C12/open-transaction-or-lock-after-all-clients-returned:"+scen, detail)
 			}
 			snap := e.C.Snapshot("dst")
 			got := c12Reduce(snap)
+			// one report per run, the most specific oracle first
+			if cls, info := c12Mix(snap, logs, outs); cls != "" {
+				detail["classification"] = info
+				detail["got"] = got
+				refuted = true
+				c.Violation("C12/"+cls+":"+scen, detail)
+				return s
+			}
 			if _, ok := serial[got]; !ok {
 				detail["got"] = got
 				detail["serial_states"] = serial
+				refuted = true
 				c.Violation("C12/final-state-matches-no-serial-order:"+scen, detail)
-			}
-			if cls, info := c12Mix(snap, logs, outs); cls != "" {
-				detail["classification"] = info
-				c.Violation("C12/"+cls+":"+scen, detail)
+				return s
 			}
 			for i, o := range outs {
 				if strings.HasSuffix(o, ":panic") || strings.HasSuffix(o, ":other") {
 					detail["client"] = i
+					refuted = true
 					c.Violation("C12/unexpected-outcome:"+kinds[i]+":"+o, detail)
+					return s
 				}
 			}
 			if ok, why := c12Chain(e, fs); !ok {
 				detail["reimport"] = why
+				refuted = true
 				c.Violation("C12/final-log-stream-does-not-reimport:"+scen, detail)
 			}
 			return s
 		}
-		// directed family: client i runs k scheduling steps, then client j runs to completion, then the rest
+		// directed family: client i runs k scheduling steps, then client j runs to completion, then the
+		// remaining clients, and i resumes last
 		for i := range kinds {
 			for j := range kinds {
 				if i == j {
 					continue
 				}
 				for k := 1; k < 400; k++ {
-					prefix := make([]int, 0, k+1)
-					for n := 0; n < k; n++ {
-						prefix = append(prefix, i)
-					}
-					prefix = append(prefix, j)
-					s := exec(&sched.PrefixChooser{Prefix: prefix})
+					ch := &c12Directed{I: i, K: k, J: j}
+					s := exec(ch)
 					r.Count("directed_single_preemption_schedules", 1)
-					if s.Diverged || s.Stuck {
+					if ch.Exhausted || s.Stuck || refuted {
 						break
 					}
 				}
 			}
 		}
+		if refuted {
+			return
+		}
 		x := &sched.Explorer{Bound: r.N(2, 3), MaxRuns: per * 2 / 3, Rng: c.Rng}
-		x.Explore(func(prefix []int) *sched.Sched { return exec(&sched.PrefixChooser{Prefix: prefix}) })
+		x.Explore(func(prefix []int) *sched.Sched {
+			if refuted {
+				x.MaxRuns = 0
+			}
+			return exec(&sched.PrefixChooser{Prefix: prefix})
+		})
+		if refuted {
+			return
+		}
 		if x.Complete {
 			r.Count("scenarios_with_bounded_space_fully_enumerated", 1)
 		}
 		r.Count("replay_divergences", int64(x.Diverged))
-		for i := 0; i < per/3; i++ {
+		for i := 0; i < per/3 && !refuted; i++ {
 			exec(&sched.RandomChooser{Rng: c.Rng, Switch: 2 + c.Rng.Intn(4)})
 		}
 	})
+}
+
+// c12Directed: client I gets the first K scheduling steps, then J runs while it can, then the other
+// clients (smallest id first), and I only when nothing else is enabled.
+type c12Directed struct {
+	I, K, J   int
+	given     int
+	Exhausted bool // I finished or blocked before its K steps: larger K add nothing
+}
+
+func (d *c12Directed) Choose(step, current int, enabled []int) int {
+	has := func(x int) bool {
+		for _, e := range enabled {
+			if e == x {
+				return true
+			}
+		}
+		return false
+	}
+	if d.given < d.K {
+		if has(d.I) {
+			d.given++
+			return d.I
+		}
+		d.Exhausted = true
+		d.given = d.K
+	}
+	if has(d.J) {
+		return d.J
+	}
+	for _, e := range enabled {
+		if e != d.I {
+			return e
+		}
+	}
+	return enabled[0]
 }
 
 func c12Kinds(rng *rand.Rand, idx int) []string {
